@@ -561,6 +561,45 @@ def from_exception_total(ctx, esc, rule):
               site=ctx.site(fe, fe.node), detail={'can raise': {k: sorted(v)[:3] for k, v in out.items()}})
 
 
+def own_notify_for(ctx, fi, exc_name):
+    """True when `fi` answers an exception of class message.<exc_name> raised inside its try block with exactly the one notification
+    built from that exception (`[PayloadNOTIFY.from_exception(ex)]`): decided on the returns whose path condition is "an exception of
+    a class that covers exc_name was caught", with every isinstance(ex, ...) test on the caught exception evaluated by the class
+    hierarchy - so a tuple of classes in the except clause and a test inside a broader handler are the same thing"""
+    from ..sval import strip_ids
+    from .. import tq
+    S = ctx.sval(fi)
+    hier = ctx.escape('engine', kills=engine_kills(ctx)).hier
+
+    def classes(t):
+        t = strip_ids(t)
+        if t[0] == 'tuple':
+            return [x[1].split('.')[-1] for x in t[1] if x[0] == 'global']
+        return [t[1].split('.')[-1]] if t[0] == 'global' else []
+    hits = []
+    for pc, t, node in S.returns:
+        took, ok = False, True
+        for a, val in pc:
+            a = strip_ids(a)
+            if a[0] == 'caught':
+                covers = any(hier.is_sub(exc_name, c) for c in classes(a[1]))
+                if covers != val:
+                    ok = False
+                took = took or (covers and val)
+            elif tq.is_call(a, 'builtins.isinstance'):
+                av = list(tq.args(a).values())
+                if len(av) == 2 and av[0][0] == 'exc':
+                    if any(hier.is_sub(exc_name, c) for c in classes(av[1])) != val:
+                        ok = False
+        if took and ok:
+            hits.append((getattr(node, 'lineno', 0), strip_ids(t)))
+    if not hits:
+        return False
+    st = sorted(hits)[0][1]         # the first handler, in source order, that takes it
+    return st[0] == 'list' and len(st[1]) == 1 and tq.is_call(st[1][0], 'message.PayloadNOTIFY.from_exception') \
+        and list(tq.args(st[1][0]).values())[0][0] == 'exc'
+
+
 def lookup_side(pc, key):
     """which side of a table lookup by `key` a path condition is on: 'miss' when the KeyError of the lookup was caught or the membership
     test `key in <table>` failed, 'hit' when nothing else constrains the path (at most the membership test held), else None.
